@@ -1,13 +1,40 @@
 (** C09 - a command/response stream decodes as its messages decoded one by one.
-    PROVED: the object side - a decoded stream's events, split at the message roots, are exactly the per-message
-    event lists, one per message, in order, and the pairing command / response-with-that-command's-code.
-    NOT YET PROVED: that the stream decoder's events ARE the concatenation of the individual decodes (needs C01
-    for commands/responses); decided by the oracle (stream vs individual decodes on the implementation, Python ==
-    on events and objects) and the model correspondence on generated streams.
+    PROVED (Proofs/Sim11-12.v): for every byte string that is a concatenation of whole messages - command, the
+    response to it, command, ..., the last command possibly without its response - (all tables passing
+    [msg_tables_ok], either mode, below the model's loop bound of 2^64 bytes), the events (and warnings) the stream
+    decoder emits are exactly the events of the first command decoded on its own, then those of the response
+    decoded with THAT command's code and the response encryption THAT command's sessions ask for, then those of
+    the next command, ... - nothing dropped, nothing added, in order; the decoder then stops silently at the next
+    message root.  Object side: a decoded stream's events, split at the message roots, are exactly the per-message
+    event lists, one per message, in order, with the pairing command / response-with-that-command's-code.
+    NOT PROVED: streams containing a malformed message (behaviour up to the first problem is C07/C10);
+    events_to_objs on the implementation (C11).  The oracle (stream vs individual decodes on the implementation,
+    Python == on events and objects) and the model correspondence on generated streams tie this to /repo.
     Statement file: theorem statements, [exact], Print Assumptions only. *)
 From Coq Require Import ZArith List String Bool.
-From TV Require Import Layout.Types Model.Monad Model.Pump Model.Object Proofs.ObjectProofs.
+From TV Require Import Layout.Types gen.Tables Model.Monad Model.Message Model.Pump Model.Object Spec.Value Spec.Message
+  Proofs.ObjectProofs Proofs.Sim4 Proofs.Sim10 Proofs.Sim11 Proofs.Sim12.
 Import ListNotations.
+Open Scope Z_scope.
+
+(** the stream decoder's events are the concatenation of the individual decodes (messages as [split_as] cuts them) *)
+Theorem C09_stream_is_its_messages :
+  forall T abort bs ps, msg_tables_ok T = true -> split_as T bs ps -> forallb (fun p => ok_leaves abort (snd p)) ps = true ->
+    Z.of_nat (List.length bs) < Z.pos stream_bound ->
+    map fst (fst (decode T abort RStream bs)) =
+    flat_map (fun p => map fst (fst (decode T abort (fst (fst p)) (snd (fst p))))) ps.
+Proof. exact stream_is_its_messages. Qed.
+Print Assumptions C09_stream_is_its_messages.
+
+(** non-vacuity: Startup command + its response + a second command are cut into three messages *)
+Example C09_example_split :
+  exists ps, split_as Tables.T ([128;1;0;0;0;12;0;0;1;68;0;0] ++ [128;1;0;0;0;10;0;0;0;0] ++ [128;1;0;0;0;12;0;0;1;68;0;0]) ps /\ List.length ps = 3%nat.
+Proof.
+  eexists. split.
+  - eapply split_pair; [vm_compute; reflexivity|discriminate|vm_compute; reflexivity|discriminate|].
+    eapply split_last; [vm_compute; reflexivity|discriminate].
+  - reflexivity.
+Qed.
 
 Theorem C09_stream_events_split_into_messages_partial :
   forall ms, Forall message ms -> separate_events (List.concat ms) = ms.
